@@ -10,7 +10,7 @@ cp bin/govc $GOVC
 trap 'rm -f $GOVC' EXIT
 
 fail=0
-for dir in seeded seeded2 seeded3 seeded4 seeded5 seeded6 seeded7 seeded8 seeded9 seeded10 seeded11 seeded12; do
+for dir in seeded seeded2 seeded3 seeded4 seeded5 seeded6 seeded7 seeded8 seeded9 seeded10 seeded11 seeded12 seeded13; do
   [ -f $dir/EXPECTED ] || continue
   while read -r id want; do
     [ -z "$id" ] && continue
